@@ -233,6 +233,8 @@ def run(chk):
     items += [("kernel " + w, lambda w=w: K.k_mul(base, chk, w)) for w in ("feMulGeneric", "feSquareGeneric")]
     items.sort(key=lambda it: 0 if "VarTime" in it[0] else 1)
     run_kernels(chk, items, parallel=False if len(fns) < 3 else None)
+    from .common import settle_bounds_history
+    settle_bounds_history(chk, prog, [prog.find("Point)." + r) for r in ("ScalarMult", "ScalarBaseMult", "VarTimeDoubleScalarBaseMult", "MultiScalarMult", "VarTimeMultiScalarMult")])
     # lazily built package-level data = every package-level object written inside a Once initialiser by some operation;
     # every read of it, in every operation, must come after a Do call of (one of) its guarding Once objects has returned
     events = chk.extra.get("events", {})
